@@ -120,7 +120,7 @@ pub fn run(args: &[String]) {
         for t in 0..threads {
             let p = progress[t].load(Ordering::SeqCst);
             if p != last[t] { last[t] = p; last_change[t] = Instant::now(); }
-            else if last_change[t].elapsed() > Duration::from_secs(3) && !hung.contains(&t) { hung.push(t); }
+            else if last_change[t].elapsed() > Duration::from_secs(8) && !hung.contains(&t) { hung.push(t); }
         }
         if !hung.is_empty() { break; }
     }
